@@ -35,11 +35,11 @@ var reviewedPanics = map[string]string{
 
 // reviewedAsserts: unchecked type assertions accepted after review.
 var reviewedAsserts = map[string]string{
-	"Result.Err|error":                 "guarded by the final output's static type being exactly `error` and a non-nil interface value",
+	"Result.Err|error":                    "guarded by the final output's static type being exactly `error` and a non-nil interface value",
 	"Graph.Dijkstra|*graph.distQueueItem": "the queue only ever holds *distQueueItem (its element type)",
 	"distQueue.Push|*graph.distQueueItem": "heap.Push is only handed *distQueueItem; Push is not called by the search at all",
-	"typedArgVertex.String|string":      "Hashcode of this kind returns a fmt.Sprintf string (checked mechanically)",
-	"typedOutputVertex.String|string":   "Hashcode of this kind returns a fmt.Sprintf string (checked mechanically)",
+	"typedArgVertex.String|string":        "Hashcode of this kind returns a fmt.Sprintf string (checked mechanically)",
+	"typedOutputVertex.String|string":     "Hashcode of this kind returns a fmt.Sprintf string (checked mechanically)",
 }
 
 func runPanic(c *Ctx) {
